@@ -97,6 +97,13 @@ fn check_program(core: &mut Core, regime: Regime, name: &str, ctx: &mut Ctx) {
   let mut clock_lost = false;
   for step in 0..STEPS {
     let run_before = world::run_code(&core.run_state);
+    if run_before == 0 && !pc_executable({ core.registers.ip } as u16) || run_before == 0 && (0xE000..0xFE00).contains(&({ core.registers.ip } as u16)) {
+      // the program has jumped out of ROM / work RAM / high RAM (echo RAM, OAM, I/O): what the
+      // CPU fetches there is outside every property (C06 and C10 name the three regions), and
+      // the cycle prediction, which reads instruction bytes through the bus, has no basis
+      ctx.count(6, 1);
+      return;
+    }
     let ime_before = world::ime_code(&core.interrupts_enabled);
     let (p0, d0) = (ppu_clock(core), div_clock(core));
     let sp_before = { core.registers.sp } as u16;
